@@ -71,3 +71,4 @@ package metrics
 //@   ensures cells: bmCellsOK(mc)
 //@   ensures gauge: has(mc.metrics.BackendMetrics, backendName) && mc.metrics.BackendMetrics[backendName].ActiveConnections == connections
 //@   modifies mapof(mc.metrics.BackendMetrics), BackendMetrics.ActiveConnections
+//@ pred has_bm(mc *MetricsCollector, name string) := has(mc.metrics.BackendMetrics, name)
